@@ -104,6 +104,21 @@ impl fmt::Display for NavigationState {
     }
 }
 
+#[cfg(mathcat_verif)]
+impl NavigationState {
+    /// Read-only projection of the navigation state (verification hook).
+    pub fn verif_json(&self) -> String {
+        use crate::verif::{json_str, json_arr};
+        let pos = |p: &NavigationPosition| format!("[{},{}]", json_str(&p.current_node), p.current_node_offset);
+        let positions = self.position_stack.iter().map(pos).collect::<Vec<String>>();
+        let commands = self.command_stack.iter().map(|c| json_str(c)).collect::<Vec<String>>();
+        let markers = self.place_markers.iter().map(pos).collect::<Vec<String>>();
+        return format!("{{\"pos\":{},\"cmds\":{},\"markers\":{},\"mode\":{},\"overview\":{},\"where\":{}}}",
+                json_arr(&positions), json_arr(&commands), json_arr(&markers),
+                json_str(&self.mode), self.speak_overview, pos(&self.where_am_i));
+    }
+}
+
 impl NavigationState {
     fn new() -> NavigationState {
         return NavigationState {
